@@ -66,6 +66,9 @@ partial def parseTG : List String → Option (TG × List String)
   | "(" :: "GatherElements0" :: r => do
       let ([x, i], r) ← parseArgs 2 r | none
       some (.gatherElements x i, r)
+  | "(" :: "CumSum" :: r => do
+      let ([x, a], r) ← parseArgs 2 r | none
+      some (.cumsum x a, r)
   | "(" :: "ScatterND" :: r => do
       let ([x, i, u], r) ← parseArgs 3 r | none
       some (.scatterND x i u, r)
@@ -214,6 +217,10 @@ def cmdTgRender (args0 : List String) : String :=
     | some c => (intIndexGraph x (.inp 1) c).render | none => "bad-op"
   | ["ndindex", rank] => match parseNat? rank with
     | some r => (ndindexGraph x r).render | none => "bad-op"
+  | ["cumsum", t, axis, dt] =>
+    match parseNat? t, parseInt? axis, parseOptCode dt with
+    | some t, some ax, some dt => showOptTG (cumsumGraph x t dt ax)
+    | _, _, _ => "bad-op"
   | [fn, t, rank, axis, kd, dt] =>
     match parseNat? t, parseNat? rank, parseAxisArg axis, parseOptCode dt with
     | some t, some r, some ax, some dt =>
